@@ -289,11 +289,12 @@ func genCfg(g *RNG, meta *MetaTable, class string) CfgSpec {
 		case "scalar_int":
 			fmt.Fprintf(&top, "%s = %d\n", L, g.Intn(100))
 		case "scalar_string":
-			fmt.Fprintf(&top, "%s = \"not a table\"\n", L)
+			fmt.Fprintf(&top, "%s = %s\n", L, pick(g, []string{"\"not a table\"", "\"\"", "'literal'", "1.5", "1979-05-27T07:32:00Z", "-0", "0x10", "inf"}))
 		case "scalar_bool":
 			fmt.Fprintf(&top, "%s = true\n", L)
 		case "array":
-			fmt.Fprintf(&top, "%s = [1, 2, 3]\n", L)
+			// arrays of every element type, short, empty and nested
+			fmt.Fprintf(&top, "%s = %s\n", L, pick(g, []string{"[1, 2, 3]", "[]", "[ ]", "[\"a\"]", "[\"a\", \"b\"]", "[1.5]", "[true, false]", "[[1, 2], [3]]", "[[]]", "[1979-05-27T07:32:00Z]"}))
 		case "array_of_tables":
 			f := "x = 1"
 			if len(fields) > 0 {
